@@ -506,6 +506,28 @@ namespace detail
 /// \endcode
 /// @{
 
+namespace detail
+{
+    // a * b / max for unsigned integral channels of at most 32 bits: the product fits into 64 bits, so the
+    // result is exact. Computing a / double(max) * b instead rounds twice, in an order that depends on the
+    // operands: the multiplication was not commutative (packed 8 bit: 51 * 155 gave 31, 155 * 51 gave 30) and
+    // the maximum was not its identity unless it is 2^k - 1 (a 0..100 channel: 29 * 100 gave 28).
+    template <typename ChannelValue, typename Base>
+    inline auto channel_multiply_scaled(ChannelValue a, ChannelValue b, std::true_type) -> ChannelValue
+    {
+        std::uint64_t const max = static_cast<Base>(channel_traits<ChannelValue>::max_value());
+        std::uint64_t const product = std::uint64_t(static_cast<Base>(a)) * std::uint64_t(static_cast<Base>(b));
+        return ChannelValue(static_cast<Base>(product / max));
+    }
+
+    // wider integral channels and floating point channels
+    template <typename ChannelValue, typename Base>
+    inline auto channel_multiply_scaled(ChannelValue a, ChannelValue b, std::false_type) -> ChannelValue
+    {
+        return ChannelValue(static_cast<Base>(a / double(channel_traits<ChannelValue>::max_value()) * b));
+    }
+}
+
 /// \brief This is the default implementation. Performance specializatons are provided
 template <typename ChannelValue>
 struct channel_multiplier_unsigned {
@@ -514,7 +536,13 @@ struct channel_multiplier_unsigned {
     using result_type = ChannelValue;
     auto operator()(ChannelValue a, ChannelValue b) const -> ChannelValue
     {
-        return ChannelValue(static_cast<typename base_channel_type<ChannelValue>::type>(a / double(channel_traits<ChannelValue>::max_value()) * b));
+        using base_t = typename base_channel_type<ChannelValue>::type;
+        using exact_t = std::integral_constant
+            <
+                bool,
+                std::is_integral<base_t>::value && std::is_unsigned<base_t>::value && sizeof(base_t) <= 4
+            >;
+        return detail::channel_multiply_scaled<ChannelValue, base_t>(a, b, exact_t());
     }
 };
 
